@@ -76,7 +76,7 @@ func run(c *vf.Ctx) {
 	c.Assume("a write is acknowledged with the raft index reported by ?raft_index; 'changed' = a write acknowledged before the round started whose index is above the label of the last successful upload; 'unchanged' = every write started before the round ended was acknowledged at or below that label")
 	c.Assume("an unchanged round that re-uploads because the storage could not report its current ID (injected CurrentID failure after an uploader restart) is recorded, not judged")
 	c.Assume("uploaded objects are restored with the stock SQLite driver (sqlref)")
-	nRuns := c.N(4, 100)
+	nRuns := c.N(6, 100)
 	rounds := 150
 	var specs []spec
 	for i := 0; i < nRuns; i++ {
@@ -312,7 +312,7 @@ func judge(c *vf.Ctx, sp spec, res *runRes) {
 					how = "skipped-by-current-id"
 				}
 				key := fmt.Sprintf("change-not-uploaded:%s:writes=%s", how, strings.Join(ks, "+"))
-				if prevFailed {
+				if prevFailed && how != "index-not-advanced" {
 					key = "failed-upload-not-retried:" + key
 				}
 				c.Violation(key, fmt.Sprintf("run %d (vacuum=%v compress=%v) round %d started (LastIndex=%d) with %d acknowledged writes above the last uploaded label %d (%s), neither the provider nor the storage failed in this round, and nothing was uploaded",
